@@ -426,6 +426,7 @@ def runSection (r : Report) (s : Section) : Report := Id.run do
             (match m.body with | .err e => (match e.is with | [.stmt _] => true | _ => false) | _ => false) then
           r := r.addCover "body-returned-ErrBadConn-no-second-transaction"
         if via == "cached" then r := r.addCover ("cached-constructor-" ++ kvStr s.cfg "cons" "cache")
+        if via == "cached" && kvStr s.cfg "reuse" "0" == "1" then r := r.addCover "cached-conn-reused-over-the-section"
         -- round 4: the acceptable-error classes at every place an error can come from
         r := r.addCover ("accept-" ++ (if op.inst == 1 then accept1 else accept))
         if op.inst == 1 then r := r.addCover "second-instance"
